@@ -94,7 +94,7 @@ package semantic
 
 // Every Type node in the heap has the children its name requires (what parseFieldType/parseContainerType build).
 //@ pure func wfType1(x *parser.Type) bool { return (x.Name == "map" ==> x.KeyType != nil && x.ValueType != nil) && ((x.Name == "list" || x.Name == "set") ==> x.ValueType != nil) }
-//@ pure func wfTypes() bool { return forall x *parser.Type :: x != nil && allocated(x) ==> wfType1(x) }
+//@ pure func wfTypes() bool { return forall x *parser.Type :: x != nil ==> wfType1(x) }
 
 //@ pure func isBase(n string) bool { return n == "bool" || n == "byte" || n == "i8" || n == "i16" || n == "i32" || n == "i64" || n == "double" || n == "string" || n == "binary" }
 //@ pure func isContainer(n string) bool { return n == "map" || n == "list" || n == "set" }
